@@ -37,6 +37,8 @@ __all__ = [
 @cache
 def find_rule(source: Any, name: str) -> Func | None:
     for rulename in {name, name.strip('_'), f'_{name}_', f'_{name}'}:
+        if not rulename:
+            continue  # a name made only of underscores
         action = getattr(source, safe_name(rulename), None)
         if callable(action):
             return action
